@@ -50,9 +50,9 @@ PROPS = {
                 title="destroyed sets independent of layout", layout=True),
     "C10": dict(streams=["script", "corpus"], fields=[f for f in ALL_FIELDS if f != "T"], oracles=["O1", "O2", "O5", "O6", "O8"], contract=True,
                 title="re-entrant destructors"),
-    "C11": dict(streams=["panic"], fields=["D", "P", "E", "F", "heapcounts", "roots"], oracles=["O1", "O2", "O5", "O6"],
+    "C11": dict(streams=["panic", "shallow"], fields=["D", "P", "E", "F", "heapcounts", "roots"], oracles=["O1", "O2", "O5", "O6"],
                 contract=True, title="panicking destructor", panicapi=True),
-    "C12": dict(streams=["api", "raw", "corpus"], fields=["heap", "R", "E", "D", "F", "vals", "roots", "raws", "C", "W"],
+    "C12": dict(streams=["api", "raw", "shallow", "corpus"], fields=["heap", "R", "E", "D", "F", "vals", "roots", "raws", "C", "W"],
                 oracles=["O1", "O2", "O4", "O8"], contract=False, title="consuming APIs on adopted objects"),
     "C13": dict(streams=["elide", "corpus"], fields=["D", "E", "heap", "roots"], oracles=["O1", "O2"], contract=False,
                 title="elided unadopt", known="D4", o1_free=True),
@@ -67,7 +67,7 @@ PROPS = {
 SIZES = {  # stream -> (quick count, thorough count)
     "contract": (2500, 60000), "contract_full": (1500, 30000), "weakheavy": (1200, 30000), "raw": (1500, 40000),
     "api": (1500, 40000), "script": (1500, 40000), "panic": (1200, 30000), "elide": (1500, 30000),
-    "noadopt": (1500, 40000), "abort": (150, 1500), "exh3s": (2500, 60000),
+    "noadopt": (1500, 40000), "abort": (150, 1500), "exh3s": (2500, 60000), "shallow": (1500, 30000),
 }
 
 
@@ -122,6 +122,8 @@ def make_stream(name, seed, tier):
         return list(gen.stream_noadopt(seed, n))
     if name == "abort":
         return list(gen.stream_abort(seed, n))
+    if name == "shallow":
+        return list(gen.stream_shallow(seed, n))
     if name == "exh2":
         cs = list(gen.exhaustive(2, 2)) + list(gen.exhaustive(2, 2, with_unrecorded=True)) + list(gen.exhaustive(2, 1, with_same=True))
         return cs
